@@ -43,9 +43,23 @@ Same(P, how, OA, OB) ==
 
 \* ---- thr (C12)
 FactKey(f) == <<f[1], f[2], f[3], f[4], f[5]>>
+\* known finding KF.C12.cleanref (= KF.C02.cleanref seen across thresholds): at the lower threshold a reference to a shape wins
+\* the node-kind vote, that shape is removed as empty and the whole constraint goes with it (possibly the referring shape too,
+\* in cascade); at the higher threshold the reference is filtered first and the plain node kind stays - the key, or the shape,
+\* is present at t2 and absent at t1.  Only keys / shapes that the specification attributes to that removal in run a are excused.
 Thr(OA, OB) ==
-  (IF ~(B!KeysIn(OB) \subseteq A!KeysIn(OA)) THEN {"C12.keys"} ELSE {}) \cup
-  (IF ~({s.key : s \in OB} \subseteq {s.key : s \in OA}) THEN {"C12.shapes"} ELSE {}) \cup
+  LET presentA == {s.key : s \in OA}
+      missK == B!KeysIn(OB) \ A!KeysIn(OA)
+      missS == {s.key : s \in OB} \ presentA
+      droppable == IF ca.removeEmpty THEN A!DroppableSet({}) ELSE {}
+      presentB == {s.key : s \in OB}
+      \* (a key that run b holds through a reference to a shape run b does not define is not excused: that is no fall-back)
+      danglingB(x) == \E s \in OB : s.key = x[1] /\ \E tc \in s.tcs : B!KeyOfTc(tc) = x[2] /\
+                         ((A!IsShape(tc.k) /\ A!KeyOfShape(tc.k) \notin presentB) \/ \E k \in tc.ks : A!IsShape(k) /\ A!KeyOfShape(k) \notin presentB)
+      cleanK(x) == ca.removeEmpty /\ ~danglingB(x) /\ ((x[1] \notin presentA /\ x[1] \in droppable) \/ A!RefToGone(x[1], x[2], presentA))
+  IN
+  (IF missK = {} THEN {} ELSE IF \A x \in missK : cleanK(x) THEN {"KF.C12.cleanref"} ELSE {"C12.keys"}) \cup
+  (IF missS = {} THEN {} ELSE IF missS \subseteq droppable THEN {"KF.C12.cleanref"} ELSE {"C12.shapes"}) \cup
   (IF \E f \in A!Facts(OA), g \in B!Facts(OB) : FactKey(f) = FactKey(g) /\ f[6] # g[6] /\ f[4] # "NONLITERAL" THEN {"C12.figures"} ELSE {}) \cup
   \* the figure of a merged IRI+BNode line is the sum of whatever statements were selected at that threshold (known finding)
   (IF \E f \in A!Facts(OA), g \in B!Facts(OB) : FactKey(f) = FactKey(g) /\ f[6] # g[6] /\ f[4] = "NONLITERAL" THEN {"KF.C12.nlsum"} ELSE {}) \cup
